@@ -14,7 +14,7 @@ let arr_of_arg = function A (s, d) -> Arr (s, d) | _ -> failwith "expected array
 (* what the driver builds for an ndarray kind: rsh = view::reshape(flat, shape) is a maybe<view> *)
 let arr_kind k a = match k with
   | "rsh" -> MSome (arr_of_arg a)
-  | "dyn" | "ref" | "fix" | "col" | "cref" -> arr_of_arg a   (* col / cref: column-major buffer, same LOGICAL content
+  | "dyn" | "ref" | "fix" | "col" | "cref" | "dynf" -> arr_of_arg a   (* col / cref: column-major buffer, same LOGICAL content
                                                                (Compare.isequal_arrL_logical: only the logical elements matter) *)
   | _ -> failwith ("array kind " ^ k)
 let maybe_of = function N -> MNone | a -> MSome (arr_of_arg a)
